@@ -709,7 +709,7 @@ func runGenCase(gc *genCase, keepDir *string) *genOutcome {
 		if hasTest {
 			// compile the package together with its (generated) test files; not
 			// "go vet", whose buildtag analyzer also judges the SOURCE files
-			targs := []string{"test", "-c", "-o", filepath.Join(dir, "p.test")}
+			targs := []string{"test", "-c", "-vet=off", "-o", filepath.Join(dir, "p.test")}
 			if len(gc.tags) > 0 {
 				targs = append(targs, "-tags="+strings.Join(gc.tags, ","))
 			}
